@@ -52,6 +52,7 @@ Step ==
          [] e.op = "end" ->
               /\ (pend > 0) => q = <<>>                     \* never deaf: no read waits while deliveries are queued
               /\ UNCHANGED <<tconn, q, pend>>
+         [] OTHER -> FALSE                                   \* an event the reference has no rule for (e.g. a hook that failed)
     /\ l' = l + 1 /\ rid' = rid
 
 TInit == /\ rid \in 1..Len(Runs) /\ l = 1 /\ tconn = "new" /\ q = <<>> /\ pend = 0
